@@ -137,7 +137,8 @@ Definition add_block_obj (g : grid) (i : id) : res grid :=
   end.
 (** [t2block(n, vol, r)]: a fresh object with an empty connection_name set *)
 Definition new_block (g : grid) (n : str) (r : id) : grid :=
-  set_next (set_brock (set_bname g (fset (bname g) (next g) n)) (fset (brock g) (next g) r)) (Pos.succ (next g)).
+  set_next (set_bcn (set_brock (set_bname g (fset (bname g) (next g) n)) (fset (brock g) (next g) r))
+                    (fset (bcn g) (next g) [])) (Pos.succ (next g)).
 (** [grid.add_block(t2block(n, vol, grid.rocktype[rk]))] *)
 Definition add_block (g : grid) (n rk : str) : res grid :=
   match rget g rk with
